@@ -4,7 +4,7 @@ Alphabet == {"x", " ", "&", "<", ">", "\"", "'", "\n", "\t", ";"}
 RECURSIVE StrN(_)
 StrN(n) == IF n = 0 THEN {""} ELSE {s \o ch : s \in StrN(n - 1), ch \in Alphabet}
 MCVals == StrN(0) \cup StrN(1) \cup StrN(2) \cup {"&amp;", "&lt;", "a&b<c>d", "]]>", "<!--", "x\ny", "1 < 2 && 3 > 2", "&#38;", "<![CDATA[x]]>"}
-MCInner == {"", "v", "&", " < "}
+MCInner == {"", " < "}
 AttrAlphabet == {"x", " ", "&", "<", ">", "\"", "'"}
 RECURSIVE AStrN(_)
 AStrN(n) == IF n = 0 THEN {""} ELSE {s \o ch : s \in AStrN(n - 1), ch \in AttrAlphabet}
